@@ -21,6 +21,9 @@ type Outcome struct {
 	Deaths   []string // stderr of each attempt during which the worker died while this job was started
 	Hung     int      // attempts that hit the wall-clock watchdog (inconclusive)
 	Attempts int
+	// PostDeath: the worker died after delivering this job's result and before starting the
+	// next one (activity left behind by this job killed the host)
+	PostDeath string
 }
 
 func (o *Outcome) Died() bool { return len(o.Deaths) > 0 }
@@ -208,6 +211,7 @@ func (p *Pool) Run(jobs []Job, onDone func(*Outcome)) []*Outcome {
 		go func() {
 			defer wg.Done()
 			var w *wproc
+			var prev *Outcome // the job this worker completed last
 			defer func() {
 				if w != nil {
 					w.kill()
@@ -234,7 +238,7 @@ func (p *Pool) Run(jobs []Job, onDone func(*Outcome)) []*Outcome {
 				b = append(b, '\n')
 				_, werr := w.stdin.Write(b)
 				var res *Result
-				died, hung := werr != nil, false
+				died, hung, started := werr != nil, false, false
 				timer := time.NewTimer(p.Watchdog)
 			wait:
 				for !died {
@@ -243,6 +247,9 @@ func (p *Pool) Run(jobs []Job, onDone func(*Outcome)) []*Outcome {
 						if !ok {
 							died = true
 							break wait
+						}
+						if strings.HasPrefix(line, "START ") {
+							started = true
 						}
 						if strings.HasPrefix(line, "RESULT ") {
 							var r Result
@@ -266,19 +273,32 @@ func (p *Pool) Run(jobs []Job, onDone func(*Outcome)) []*Outcome {
 				switch {
 				case res != nil:
 					o.Res = res
+					prev = o
 					finish(o)
 				case hung:
 					o.Hung++
 					p.saveLog(o, w.errb.String(), "hung")
 					w.kill()
 					w = nil
+					prev = nil
 					finish(o)
+				case !started && prev != nil:
+					// the worker was already dying when this job arrived: blame the previous job
+					w.cmd.Wait()
+					prev.PostDeath = w.errb.String()
+					p.saveLog(prev, prev.PostDeath, "postdeath")
+					w.kill()
+					w = nil
+					prev = nil
+					o.Attempts--
+					queue <- it
 				default:
 					w.cmd.Wait()
 					o.Deaths = append(o.Deaths, w.errb.String())
 					p.saveLog(o, w.errb.String(), "death")
 					w.kill()
 					w = nil
+					prev = nil
 					if o.Attempts <= p.Retries {
 						queue <- it
 					} else {
